@@ -1051,6 +1051,8 @@ def run(ctx):
     rule_blocked_callers(ctx)
     rule_leave(ctx)
     rule_time_units(ctx)
+    from .common import rule_instance_state
+    rule_instance_state(ctx, ("aiokafka.producer.", "aiokafka.consumer.", "aiokafka.conn.", "aiokafka.client.",))
     rep.nd("the numeric bound on stop() latency (timeouts are runtime values)")
     rep.nd("that flush() inside producer.stop() completes: it waits for delivery by design, bounded only by the sender's progress")
     rep.nd("a task cancelled before its first step ends with CancelledError whatever its body handles")
